@@ -107,7 +107,7 @@ func (r *rec) roundtrip(name, cls string, val reflect.Value, tag string, violate
 	r.w.Emit(e)
 }
 
-func pduCases(r *rec, g *te.Gen, perType int, badEvery int) {
+func pduCases(r *rec, g *te.Gen, perType int, badEvery int, rot int) {
 	tops := []struct {
 		present int
 		val     interface{}
@@ -118,14 +118,16 @@ func pduCases(r *rec, g *te.Gen, perType int, badEvery int) {
 		for alt := 1; alt < vt.NumField(); alt++ {
 			for k := 0; k < perType; k++ {
 				g.BadProb, g.Violated = 0, false
-				g.Rich, g.MaxList = k%2 == 1, []int{2, 5, 1, 3}[k%4] // every second value prefers content-bearing alternatives and extension values
+				// the third value and every second one prefer content-bearing alternatives and extension values
+				g.Rich, g.MaxList = k == 2 || k%2 == 1, []int{2, 5, 1, 3}[k%4]
 				g.Full = 0
 				if k == 0 {
 					g.Full = 1 // every IE alternative of the message once, every OPTIONAL present
 				} else if k == 1 {
 					g.Full, g.Rich = 2, false // every OPTIONAL absent, lists at their lower bound
 				}
-				if badEvery > 0 && n%badEvery == badEvery-1 && k >= 2 { // the full and the minimal value of each message stay within constraints
+				// the full and the minimal value of each message stay within constraints; which messages get deliberate violations rotates with the seed
+				if badEvery > 0 && (n+3*rot)%badEvery == badEvery-1 && k >= 2 {
 					g.BadProb = 0.05
 				}
 				n++
@@ -179,19 +181,22 @@ func pduCases(r *rec, g *te.Gen, perType int, badEvery int) {
 			}
 		}
 	}
-	for _, tv := range transferTypes {
+	for ti, tv := range transferTypes {
 		for k := 0; k < perType; k++ {
 			g.BadProb, g.Violated = 0, false
-			g.Rich, g.MaxList = k%2 == 1, []int{2, 5, 1, 3}[k%4]
+			g.Rich, g.MaxList = k == 2 || k%2 == 1, []int{2, 5, 1, 3}[k%4]
 			g.Full = 0
 			if k == 0 {
 				g.Full = 1
 			} else if k == 1 {
 				g.Full, g.Rich = 2, false
 			}
+			if badEvery > 0 && (ti+rot)%4 == 3 && k >= 2 {
+				g.BadProb = 0.05 // transfer containers get deliberate violations too
+			}
 			v := reflect.New(reflect.TypeOf(tv)).Elem()
 			g.Fill(v, te.Parse("valueExt"), 1)
-			r.roundtrip(v.Type().Name(), "transfer", v, "valueExt", false)
+			r.roundtrip(v.Type().Name(), "transfer", v, "valueExt", g.Violated)
 		}
 	}
 }
@@ -467,7 +472,7 @@ func main() {
 		per = 160
 	}
 	if *mode == "pdu" || *mode == "all" {
-		pduCases(r, g, per, 7)
+		pduCases(r, g, per, 7, int(((*seed)%7+7)%7))
 		g.Full, g.Rich = 0, false
 		openCases(r, g)
 	}
